@@ -1,6 +1,7 @@
 package chk
 
 import (
+	"go/token"
 	"go/ast"
 	"go/types"
 )
@@ -108,18 +109,27 @@ func (sc SortCall) AsKeyCompare(ret *ast.ReturnStmt) *KeyCompare {
 		return nil
 	}
 	f := sc.Fn
-	li, lj := f.Mentions(be.X, sc.I), f.Mentions(be.X, sc.J)
-	ri, rj := f.Mentions(be.Y, sc.I), f.Mentions(be.Y, sc.J)
+	bx, by := be.X, be.Y
+	// cmp.Compare(A, B) < 0 is A < B, > 0 is A > B (strings.Compare likewise)
+	if call, isCall := ast.Unparen(be.X).(*ast.CallExpr); isCall && len(call.Args) == 2 && (be.Op == token.LSS || be.Op == token.GTR) {
+		if tv, has := f.Info().Types[be.Y]; has && tv.Value != nil && tv.Value.ExactString() == "0" {
+			if fo := f.Callee(call); fo != nil && fo.Pkg() != nil && (fo.Pkg().Path() == "cmp" || fo.Pkg().Path() == "strings") && fo.Name() == "Compare" {
+				bx, by = call.Args[0], call.Args[1]
+			}
+		}
+	}
+	li, lj := f.Mentions(bx, sc.I), f.Mentions(bx, sc.J)
+	ri, rj := f.Mentions(by, sc.I), f.Mentions(by, sc.J)
 	kc := &KeyCompare{Ret: ret, Op: be.Op.String()}
 	switch {
 	case li && !lj && rj && !ri:
-		kc.Left, kc.Right = be.X, be.Y
-		if !f.SameModulo(be.X, be.Y, sc.I, sc.J) {
+		kc.Left, kc.Right = bx, by
+		if !f.SameModulo(bx, by, sc.I, sc.J) {
 			return nil
 		}
 	case lj && !li && ri && !rj:
-		kc.Left, kc.Right, kc.Swapped = be.Y, be.X, true
-		if !f.SameModulo(be.Y, be.X, sc.I, sc.J) {
+		kc.Left, kc.Right, kc.Swapped = by, bx, true
+		if !f.SameModulo(by, bx, sc.I, sc.J) {
 			return nil
 		}
 	default:
